@@ -74,6 +74,15 @@ func constantly(args ...any) Callable {
 }
 
 func call(fm *Frame, fn Callable, argsVal vals.List, optsVal vals.Map) error {
+	if fn == nil {
+		return errNilArg("function to call", "callable")
+	}
+	if argsVal == nil {
+		return errNilArg("arguments", "list")
+	}
+	if optsVal == nil {
+		return errNilArg("options", "map")
+	}
 	args := make([]any, 0, argsVal.Len())
 	for it := argsVal.Iterator(); it.HasElem(); it.Next() {
 		args = append(args, it.Elem())
